@@ -626,6 +626,269 @@ def run_lock_case(case: dict) -> Outcome:
     finally:
         sock.close()
 
+# ----------------------------------------------------------------------------------------------
+# layer "async-iter": `iter_received_packets(timeout=T)` of the asynchronous TCP client.  T is a budget for the whole
+# iterator: time spent waiting inside __anext__ is deducted, time spent by the consumer between two __anext__ calls is
+# not.  Runs on the virtual-time loop; the library's ElapsedTime clock is pointed at the loop clock (on a real loop the
+# two clocks advance together).
+
+
+async def _async_iter_session(case: dict) -> dict:
+    import asyncio
+
+    from easynetwork.clients.async_tcp import AsyncTCPNetworkClient
+
+    from ..memtransports import MemStreamTransport, VerifBackend
+
+    loop = asyncio.get_running_loop()
+    clock = types.SimpleNamespace(now=0.0, perf_counter=loop.time)
+    backend = VerifBackend()
+    mem = MemStreamTransport(backend)
+    backend.connect_transports.append(mem)
+    proto: Any = BufferedStreamProtocol(StringLineSerializer()) if case["buffered"] else StreamProtocol(StringLineSerializer())
+    res: dict[str, Any] = {"events": [], "end": None}
+    with virtual_clock(clock):  # type: ignore[arg-type]
+        client = AsyncTCPNetworkClient(("localhost", 9000), proto, backend)
+        await client.wait_connected()
+        t0 = loop.time()
+        res["t0"] = t0
+        for t, data in case["arrivals"]:
+            loop.call_at(t0 + t, mem.feed, data.encode())
+        T = case["timeout"]
+        it = client.iter_received_packets(timeout=None if T == "inf" else float(T))
+        i = 0
+        try:
+            while True:
+                if T == "inf" and i >= case["npackets"]:
+                    res["end"] = "harness-stopped"
+                    break
+                start = loop.time() - t0
+                try:
+                    pkt = await anext(it)
+                except StopAsyncIteration:
+                    res["events"].append(("stop", start, loop.time() - t0))
+                    res["end"] = "stop"
+                    break
+                res["events"].append(("pkt", start, loop.time() - t0, pkt))
+                if i > case["npackets"] + 2:
+                    raise HarnessError("iterator yields more packets than were sent")
+                d = case["outside"][i % len(case["outside"])]
+                i += 1
+                if d:
+                    await asyncio.sleep(d)
+        finally:
+            await client.aclose()
+    return res
+
+
+def run_async_iter_case(case: dict) -> Outcome:
+    from ..vloop import Deadlock, run_virtual
+
+    try:
+        r = run_virtual(_async_iter_session, case)
+    except Deadlock as exc:
+        raise Violation("hang", f"asynchronous iterator never ends: {exc}") from exc
+    T = case["timeout"]
+    budget = math.inf if T == "inf" else float(T)
+    ready = case["ready"]  # virtual completion time of each packet
+    names = case["names"]
+    # reference: replay the observed consumer delays against the arrival times
+    now = 0.0
+    k = 0
+    exp: list[tuple] = []
+    tie = False
+    for ev in r["events"]:
+        # the consumer's own delay is whatever elapsed between the previous event's end and this event's start
+        now = ev[1]
+        if k < len(ready):
+            wait = max(0.0, ready[k] - now)
+            if _tie(wait, budget) and wait > 0:
+                tie = True
+                break
+            if wait <= budget:
+                exp.append(("pkt", now + wait, names[k]))
+                budget -= wait
+                k += 1
+                continue
+        exp.append(("stop", now + budget))
+        break
+    if tie:
+        return Outcome(classes=("tie-discarded",))
+    got = [("pkt", e[2], e[3]) if e[0] == "pkt" else ("stop", e[2]) for e in r["events"]]
+    detail = {"timeout": T, "arrivals": case["arrivals"], "outside": case["outside"], "observed": got, "expected": exp}
+    if T == "inf":
+        if math.isinf(exp[-1][1]) if exp and exp[-1][0] == "stop" else False:
+            exp = exp[:-1]
+    n = min(len(got), len(exp))
+    for a, b in zip(got[:n], exp[:n]):
+        same = a[0] == b[0] and abs(a[1] - b[1]) <= 1e-6 and (a[0] == "stop" or a[2] == b[2])
+        if not same:
+            if a[0] == "pkt" and b[0] == "stop":
+                kind = "overrun"
+            elif a[0] == "stop" and b[0] == "pkt":
+                kind = "gave-up-early"
+            elif a[0] == "stop":
+                kind = "overrun" if a[1] > b[1] else "gave-up-early"
+            else:
+                kind = "wrong-packet"
+            raise Violation(kind, f"async iter_received_packets(timeout={T}): observed {a}, the budget semantics give {b}", **detail)
+    if len(got) != len(exp):
+        raise Violation("iterator-budget", f"async iter_received_packets(timeout={T}): observed {len(got)} events, expected {len(exp)}", **detail)
+    waited = [e for e in r["events"] if e[0] == "pkt" and e[2] - e[1] > 1e-9]
+    nt = budget != math.inf and T not in (0, "inf") and len(waited) >= 2 and any(d > 0 for d in case["outside"])
+    classes = [f"timeout-{'inf' if T == 'inf' else ('zero' if T == 0 else 'finite')}", f"end-{r['end']}", f"waited-{min(len(waited), 3)}"]
+    if any(d > 0 for d in case["outside"]):
+        classes.append("consumer-delays")
+    return Outcome(nontrivial=nt, classes=tuple(classes))
+
+
+@st.composite
+def st_async_iter_case(draw: st.DrawFn, tier: str) -> dict:
+    n = draw(st.integers(1, 4))
+    arrivals: list[tuple[float, str]] = []
+    ready: list[float] = []
+    names: list[str] = []
+    t = 0.0
+    for i in range(n):
+        name = f"packet-{i}"
+        line = name + "\n"
+        pieces = draw(st.integers(1, 3))
+        cuts = sorted(draw(st.lists(st.integers(1, len(line) - 1), min_size=pieces - 1, max_size=pieces - 1, unique=True)))
+        parts = [line[a:b] for a, b in zip([0] + cuts, cuts + [len(line)])]
+        for part in parts:
+            t += draw(st.sampled_from([0.0, 0.25, 0.5, 0.75, 1.25, 2.5])) + 0.001 * (len(arrivals) + 1)
+            arrivals.append((t, part))
+        ready.append(t)
+        names.append(name)
+    return {
+        "arrivals": arrivals,
+        "ready": ready,
+        "names": names,
+        "npackets": n,
+        "timeout": draw(st.sampled_from([0, 1, 2, 3, 5, 8, "inf"])),
+        "outside": draw(st.lists(st.sampled_from([0, 0, 0.375, 1.125, 2.625]), min_size=1, max_size=4)),
+        "buffered": draw(st.booleans()),
+    }
+
+
+# ----------------------------------------------------------------------------------------------
+# layer "tls": the blocking SSLStreamTransport.  One TLS record carries the application data; its ciphertext reaches the
+# socket in 1-5 pieces at generated virtual times (so the transport needs several want-read retries, each of which
+# must draw on the same budget).  recv()/recv_into() with timeout T must return the plaintext at the instant the last
+# piece arrives if that is within T, and otherwise raise TimeoutError after exactly T; whatever was not read by a
+# timed-out call must be returned by a later one.
+
+
+def run_tls_case(case: dict) -> Outcome:
+    from easynetwork.lowlevel.api_sync.transports.socket import SSLStreamTransport
+
+    from .. import tlsharness, tlspeer
+    from ..synctls import TLSPipe, selector_factory_for
+
+    world = World()
+    peer = tlspeer.TLSPeer("server" if case["sut_role"] == "client" else "client", case["version"])
+    pipe = TLSPipe(world, peer, [1 << 20])
+    ctx, kw = tlsharness.make_sut_kwargs(case["sut_role"], case["version"])
+    retry = math.inf if case["retry_interval"] == "inf" else float(case["retry_interval"])
+    payload = tlspeer.payload("peer", 0, case["size"])
+    T = case["timeout"]
+    budget = math.inf if T == "inf" else float(T)
+    try:
+        with virtual_clock(world):
+            try:
+                transport = SSLStreamTransport(
+                    pipe.sut_sock, ctx, retry, handshake_timeout=1e7, shutdown_timeout=5.0, selector_factory=selector_factory_for(pipe), **kw
+                )
+                # let post-handshake records (session tickets) settle, then queue the application record and hold it back
+                for _ in range(1000):
+                    if not pipe.pump():
+                        break
+                peer.write(payload)
+                before = pipe.delivered + len(pipe.to_sut)
+                pipe.release_schedule = [(world.now, before)]
+                for _ in range(1000):
+                    if not pipe.pump():
+                        break
+                total = pipe.delivered + len(pipe.to_sut) - before  # ciphertext bytes of the record (plus nothing else)
+                if total <= 0:
+                    raise HarnessError("peer produced no ciphertext for the application record")
+                start = world.now
+                fracs = sorted(set(case["fractions"]))
+                cum = sorted({max(1, min(total, int(total * f))) for f in fracs} | {total})
+                times = case["times"][: len(cum)]
+                while len(times) < len(cum):
+                    times.append(times[-1] + 0.5)
+                pipe.release_schedule = [(start, before)] + [(start + t, before + c) for t, c in zip(times, cum)]
+                ready = times[len(cum) - 1]
+                got = bytearray()
+                outcome = None
+                try:
+                    if case["recv_mode"] == "recv":
+                        got += transport.recv(65536, budget)
+                    else:
+                        buf = bytearray(65536)
+                        n = transport.recv_into(buf, budget)
+                        got += buf[:n]
+                    outcome = "ok"
+                except TimeoutError:
+                    outcome = "timeout"
+                end = world.now - start
+                if _tie(ready, budget):
+                    return Outcome(classes=("tie-discarded",))
+                exp, t_exp = ("ok", ready) if ready <= budget else ("timeout", budget)
+                detail = {"timeout": T, "pieces": list(zip(times, cum)), "ciphertext": total, "end": end, "outcome": outcome}
+                if outcome != exp or abs(end - t_exp) > 1e-6:
+                    kind = "overrun" if end > t_exp + 1e-6 or (outcome == "ok" and exp == "timeout") else "gave-up-early"
+                    raise Violation(
+                        kind,
+                        f"SSLStreamTransport.{case['recv_mode']}(timeout={T}): record complete at t={ready} ({len(cum)} pieces): "
+                        f"{outcome} at t={end}, expected {exp} at t={t_exp}",
+                        **detail,
+                    )
+                # nothing is lost: read the rest without a deadline
+                guard = 0
+                while len(got) < len(payload):
+                    got += transport.recv(65536, math.inf)
+                    guard += 1
+                    if guard > 50:
+                        raise Violation("data-lost", f"plaintext never completes after the timed call: {len(got)}/{len(payload)}", **detail)
+                if bytes(got) != payload:
+                    raise Violation("data-lost", "plaintext differs from what the peer wrote", **detail)
+                transport.close()
+            except HarnessHang as exc:
+                raise Violation("hang", f"blocking TLS recv hangs: {exc}") from exc
+            except SpinGuard as exc:
+                raise Violation("hang", f"blocking TLS recv spins: {exc}") from exc
+    finally:
+        pipe.close()
+    nt = budget not in (0, math.inf) and len(cum) >= 3
+    near = abs(ready - budget) <= 1.0
+    classes = [f"end-{outcome}", f"pieces-{min(len(cum), 4)}", f"role-{case['sut_role']}", f"tls-{case['version']}", f"timeout-{'inf' if T == 'inf' else ('zero' if T == 0 else 'finite')}"]
+    if near:
+        classes.append("near-deadline")
+    return Outcome(nontrivial=nt, classes=tuple(classes))
+
+
+@st.composite
+def st_tls_case(draw: st.DrawFn, tier: str) -> dict:
+    n = draw(st.integers(1, 5))
+    times: list[float] = []
+    t = 0.0
+    for i in range(n):
+        t += draw(st.sampled_from([0.0, 0.25, 0.5, 0.75, 1.25, 2.5])) + 0.001 * (i + 1)
+        times.append(t)
+    return {
+        "sut_role": draw(st.sampled_from(["client", "server"])),
+        "version": draw(st.sampled_from(["1.2", "1.3"])),
+        "size": draw(st.sampled_from([1, 100, 5000, 16384])),
+        "fractions": draw(st.lists(st.sampled_from([0.01, 0.1, 0.3, 0.5, 0.9, 0.99]), min_size=n - 1, max_size=n - 1)),
+        "times": times,
+        "timeout": draw(st.sampled_from([0, 1, 2, 3, 5, 8, "inf"])),
+        "retry_interval": draw(st.sampled_from(RETRY)),
+        "recv_mode": draw(st.sampled_from(["recv", "recv_into"])),
+    }
+
+
 
 CHECK = Check(
     id="C11",
@@ -636,17 +899,25 @@ CHECK = Check(
         "timeout {0, 1..8, None} per call x retry_interval {0.3, 1, 7, inf} x API (StreamEndpoint both receive paths, "
         "TCPNetworkClient recv/send/iter_received_packets, DatagramEndpoint, UDPNetworkClient) x max_recv_size; exact "
         "virtual-time oracle; non-trivial = finite timeout with >= 3 partial arrivals or spurious wake-ups and completion "
-        "close to the deadline; ties between an arrival and a deadline are discarded (counted as class tie-discarded)"
+        "close to the deadline; ties between an arrival and a deadline are discarded (counted as class tie-discarded); "
+        "layer async-iter: AsyncTCPNetworkClient.iter_received_packets(timeout) on the virtual loop, 1-4 packets in 1-3 pieces at "
+        "generated times x consumer delays between __anext__ calls (not deducted) - non-trivial = finite budget, >= 2 packets waited "
+        "for and a consumer delay; layer tls: blocking SSLStreamTransport.recv/recv_into, one TLS record whose ciphertext arrives in "
+        "1-5 pieces at generated times - non-trivial = finite timeout and >= 3 pieces"
     ),
     layers=[
         Layer("recv", st_recv_case, run_recv_case, {"quick": 1500, "thorough": 8000}),
         Layer("send", st_send_case, run_send_case, {"quick": 800, "thorough": 4000}),
         Layer("datagram", st_dgram_case, run_dgram_case, {"quick": 600, "thorough": 3000}),
         Layer("lock", st_lock_case, run_lock_case, {"quick": 400, "thorough": 1500}),
+        Layer("async-iter", st_async_iter_case, run_async_iter_case, {"quick": 800, "thorough": 4000}),
+        Layer("tls", st_tls_case, run_tls_case, {"quick": 300, "thorough": 2000}),
     ],
     assumptions=[
         "time is virtual: perf_counter of lowlevel/_utils.py and the selector are replaced, so only waits inside select() take time (processing time is zero)",
-        "the socket is a socket.socket subclass with a simulated data path; the TLS blocking transport is not part of these layers",
+        "recv/send/datagram/lock layers: the socket is a socket.socket subclass with a simulated data path; layer tls: real socketpair, stdlib-ssl peer pumped inside select(), "
+        "pieces of the ciphertext released at virtual times (TLS send-side budget is not covered)",
+        "layer async-iter: lowlevel/_utils.ElapsedTime reads the virtual loop clock (on a real loop perf_counter and loop.time() advance together)",
         "lock layer: the clients' threading.Lock objects are replaced (through the module global `threading` of clients/tcp.py and clients/udp.py) by a lock whose acquire() waits in virtual time until a generated release instant",
     ],
 )
